@@ -357,6 +357,20 @@ class Translator:
                 ty = ("named", "?")
             if len(pt) == 1 and pt[0][0] == "id" and pt[0][1] in asref:
                 ty = ("bytes",)
+            ptn = [x for x in pt if x not in (("op", "&"), ("id", "mut"))]
+            if len(ptn) == 1 and ptn[0][0] == "id" and any(ptn[0][1] in x.records and len(x.records[ptn[0][1]]) > 1 for x in idxs) and pn != "_":
+                rec = [x for x in idxs if ptn[0][1] in x.records][0].records[ptn[0][1]]
+                env[pn] = V("", ("opaque",))
+                for f, ft in rec.items():
+                    try:
+                        fty = self.rtype(ft, ix, gens)
+                    except Untranslatable:
+                        continue
+                    if erase(fty) in INT_BITS or fty == "bool" or fty == ("bytes",):
+                        g = ctx.fresh(pn + "_" + f)
+                        env[pn + "." + f] = self.param_value(g, fty, pn + "." + f)
+                        params.append((g, coq_type(erase(fty)), fty))
+                continue
             if ty == ("bytes",) and params_decl is not None:
                 ty = ("slice",)              # position functions only ever use the length of the data
             if pn == "_":
@@ -411,8 +425,7 @@ class Translator:
                     env[k] = v.with_(code="%UNDECLARED:" + k)
         if rty_decl is not None:
             ctx.rty = rty_decl
-        if ctx.rty == ("unitv",):
-            pass
+        env0 = dict(env)
         stmts, tail = body
         if mode[0] == "after":
             pos = [i for i, s in enumerate(stmts) if s[0] == "let" and s[1] == mode[1]]
@@ -464,6 +477,11 @@ class Translator:
         info.ext = ext
         params = [(t, "list N" if len(self.ext_tables[t][0]) == 1 else "list (list N)", ("ext", t)) for t in ext] + params
         info.params = params
+        info.keys = {}
+        for kk, vv in env0.items():
+            if isinstance(vv, V) and vv.code:
+                info.keys[vv.code] = kk
+        info.rust_params = [pn for pn, _ in parse_params(item.params)]
         info.rty = ctx.rty if not ctx.opt else ("opt", ctx.rty)
         info.comp = comp
         info.pure = is_pure(comp)
@@ -488,9 +506,13 @@ class Translator:
             return ("tuple", tuple(self.rtype(t, ix, gens) for t in parts))
         if toks[0] == ("op", "["):
             return ("bytes",)
+        while len(toks) >= 3 and toks[0][0] == "id" and toks[1] == ("op", "::") and toks[0][1] not in gens:
+            toks = toks[2:]
         k, v = toks[0]
         if k != "id":
             raise Untranslatable("type")
+        if v == "Ordering":
+            return ("ord",)
         if v in gens:
             if len(toks) >= 3 and toks[1] == ("op", "::") and toks[2] == ("id", "State"):
                 return ("coq", "src_St %s" % v)
@@ -1394,7 +1416,7 @@ class Translator:
                 p2, x = self.expr(it, env, ctx)
                 pre += p2
                 vs.append(x)
-            return pre, V("(%s)" % ", ".join(v.code for v in vs), ("tuple", tuple(erase(v.ty) for v in vs)))
+            return pre, V("(%s)" % ", ".join(v.code for v in vs), ("tuple", tuple(erase(v.ty) for v in vs)), opt=("tuple", vs))
         if k == "structlit":
             nm = e[1][-1]
             if nm == "Self":
@@ -1469,6 +1491,8 @@ class Translator:
             if c is not None:
                 return c
             raise Untranslatable("unknown name " + n)
+        if len(p) >= 2 and p[-2] == "Ordering" and p[-1] in ("Less", "Equal", "Greater"):
+            return V({"Less": "Lt", "Equal": "Eq", "Greater": "Gt"}[p[-1]], ("ord",))
         if p[-1] in ("MAX", "MIN") and p[-2] in INT_BITS:
             return num(tmax(p[-2]) if p[-1] == "MAX" else 0, p[-2])
         if len(p) >= 2:
@@ -1931,7 +1955,88 @@ class Translator:
         f = min if name == "min" else max
         return pa + pb, V("(N.%s %s %s)" % (name, a.code, b.code), a.ty, f(a.lo, b.lo), f(a.hi, b.hi))
 
+    def cmp_values(self, a, b):
+        """Ord::cmp of two values as a Gallina term of type comparison"""
+        ta, tb = erase(a.ty), erase(b.ty)
+        if a.opt and a.opt[0] == "tuple" and b.opt and b.opt[0] == "tuple" and len(a.opt[1]) == len(b.opt[1]):
+            parts = [self.cmp_values(x, y) for x, y in zip(a.opt[1], b.opt[1])]
+            code = parts[-1]
+            for pc in reversed(parts[:-1]):
+                code = "(match %s with Eq => %s | src_c => src_c end)" % (pc, code)
+            return code
+        if ta == ("bytes",) and tb == ("bytes",):
+            return "(lex_cmp %s %s)" % (a.code, b.code)
+        if is_int(ta) and is_int(tb):
+            a, b = self.unify(a, b)
+            if erase(a.ty) == erase(b.ty):
+                return "(N.compare %s %s)" % (a.code, b.code)
+        if ta == "bool" and tb == "bool":
+            return "(N.compare (if %s then 1 else 0) (if %s then 1 else 0))" % (a.code, b.code)
+        raise Untranslatable("cmp of %s and %s" % (a.ty, b.ty))
+
     def method(self, name, recv, args, env, ctx, exp):
+        if recv == ("path", ["self"]) and ctx.owner and "self" not in env and self.find_fn(ctx.ix, ctx.owner, name)[1] is not None:
+            f = self.get_fn(ctx.ix, ctx.owner, name)
+            rp = [x for x in f.rust_params if x != "self"]
+            if len(rp) != len(args):
+                raise Untranslatable("arity of %s" % name)
+            codes, pre = [], []
+            for g, ct, rt in f.params:
+                key = f.keys.get(g)
+                if key is None:
+                    raise Untranslatable("call of %s: parameter %s" % (name, g))
+                if key.startswith("self."):
+                    if key not in env:
+                        raise Untranslatable("call of %s needs %s" % (name, key))
+                    codes.append(env[key].code)
+                    continue
+                base, _, fld = key.partition(".")
+                a = args[rp.index(base)]
+                if fld:
+                    if not (a[0] == "path" and len(a[1]) == 1 and (a[1][0] + "." + fld) in env):
+                        raise Untranslatable("record argument of %s" % name)
+                    codes.append(env[a[1][0] + "." + fld].code)
+                else:
+                    p2, v = self.expr(a, env, ctx, erase(rt) if not isinstance(erase(rt), tuple) else None)
+                    pre += p2
+                    codes.append(self.coerce(v, rt).code)
+            code = "(%s %s)" % (f.coqname, " ".join(codes))
+            if f.pure:
+                v = self.typed(code, f.rty)
+                if isinstance(f.rty, tuple) and f.rty[0] == "opt" and getattr(f, "always_some", False):
+                    v = v.with_(opt=None)
+                return pre, v
+            t = ctx.fresh("t")
+            return pre + [("bind", t, ("raw", code))], self.typed(t, f.rty)
+        if name in ("cmp", "partial_cmp") and len(args) == 1:
+            pa, a = self.expr(recv, env, ctx)
+            pb, b = self.expr(args[0], env, ctx, erase(a.ty) if a.ty in INT_BITS else None)
+            try:
+                code = self.cmp_values(a, b)
+            except Untranslatable:
+                code = None
+            if code is not None:
+                v = V(code, ("ord",))
+                if name == "cmp":
+                    return pa + pb, v
+                return pa + pb, V("(Some %s)" % code, ("opt", ("ord",)), opt=("some", v))
+        if name in ("reverse", "then", "then_with", "is_lt", "is_le", "is_gt", "is_ge", "is_eq", "is_ne"):
+            pa, a = self.expr(recv, env, ctx)
+            if a.ty == ("ord",):
+                if name == "reverse" and not args:
+                    return pa, V("(CompOpp %s)" % a.code, ("ord",))
+                if name in ("then", "then_with") and len(args) == 1:
+                    e2 = args[0][2] if (name == "then_with" and args[0][0] == "closure" and not args[0][1]) else (args[0] if name == "then" else None)
+                    if e2 is None:
+                        raise Untranslatable("then_with argument")
+                    pb, b = self.expr(e2, env, ctx)
+                    if pb or b.ty != ("ord",):
+                        raise Untranslatable("then_with body")
+                    return pa, V("(match %s with Eq => %s | src_c => src_c end)" % (a.code, b.code), ("ord",))
+                tests = {"is_lt": "Lt => true | _ => false", "is_le": "Gt => false | _ => true", "is_gt": "Gt => true | _ => false",
+                         "is_ge": "Lt => false | _ => true", "is_eq": "Eq => true | _ => false", "is_ne": "Eq => false | _ => true"}
+                if name in tests and not args:
+                    return pa, V("(match %s with %s end)" % (a.code, tests[name]), "bool")
         pre, r = self.expr(recv, env, ctx, exp if name.startswith(("wrapping_", "rotate_", "checked_", "saturating_")) or name in ("min", "max") else None)
         rt = r.ty
         if isinstance(rt, tuple) and rt[0] == "aut":
@@ -1998,9 +2103,15 @@ class Translator:
                 if r.opt and r.opt[0] == "some":
                     return pre, r.opt[1]
                 t, x = ctx.fresh("t"), ctx.fresh("x")
-                return pre + [("bind", t, ("mopt", r.code, x, ("ret", x), ("panic",)))], V(t, ety, 0, tmax(ety))
+                return pre + [("bind", t, ("mopt", r.code, x, ("ret", x), ("panic",)))], self.typed(t, ety)
             if name in ("map_or", "map") and args and args[-1][0] == "closure" and len(args[-1][1]) == 1 and len(args) == (2 if name == "map_or" else 1):
                 ety = rt[1]
+                if name == "map" and r.opt and r.opt[0] == "some":
+                    e2 = dict(env)
+                    e2[args[-1][1][0]] = r.opt[1]
+                    pb, bv = self.expr(args[-1][2], e2, ctx)
+                    if not pb:
+                        return pre, V("(Some %s)" % bv.code, ("opt", erase(bv.ty)), opt=("some", bv))
                 x = ctx.fresh(args[-1][1][0])
                 e2 = dict(env)
                 e2[args[-1][1][0]] = self.typed(x, ety).with_(var=args[-1][1][0])
